@@ -288,7 +288,7 @@ def run(tier, seed):
     bin_ = core.build_lalrpop()
     apidriver.build()
     base = core.seed_for("C23", seed) % (2 ** 31)
-    n = {"quick": 1500, "thorough": 12000}[tier]
+    n = {"quick": 2500, "thorough": 12000}[tier]
     res = core.tmap(one, [(i, base + i, bin_, chk.work) for i in range(n)])
     for (viol, stats, desc), i in zip(res, range(n)):
         chk.evaluations += 1
